@@ -110,7 +110,8 @@ SyntaxSkeletons == {"unknown-instruction", "unknown-phase", "unterminated-quote"
 Extreme == {"0", "-1", "1//0", "1.5", "'a'", "()", "2**70", "None", "(", ")", "[", "*", "\\", "'\\6'", "'(?P<a'",
             "'[a-'", "+", "@[UNDEF]@", "@[EXACTLY_ACT]@", "\"", "'", "<<EOF", ":>", "-rel-tmp", "-rel", "!", "&&",
             "||", "=", ":", "{", "}", "-full", "\\u00e9", "[setup]", "[assert]", "including", "`",
-            "\\f", "\\v", "\\u00a0", "\\u2028", "LONG"}        \* white space of other kinds; a name of 300 characters
+            "\\f", "\\v", "\\u00a0", "\\u2028", "LONG",        \* white space of other kinds; a name of 300 characters
+            "\"\"", "''"}                                    \* the empty string, soft and hard quoted
 WhiteSpaces == {"\\f", "\\u00a0"}
 
 VARIABLES setupL, assertL,   \* generated instruction lines (token sequences) of [setup] and [assert]
